@@ -182,12 +182,44 @@ func checkC15(c *Check) {
 		c.Anchor("flamego.EnvTypeDev")
 	} else {
 		dev := edgesWhere(D, cCmp(token.EQL, vCall("flamego.Env"), vConstStr(devName)), true)
-		isSource := func(v ssa.Value) bool {
+		isLocalBuf := func(v ssa.Value) bool {
+			v = strip(v)
+			t := namedName(derefT(v.Type()))
+			if t != "Buffer" && t != "Builder" {
+				return false
+			}
+			switch strip(v).(type) {
+			case *ssa.Alloc:
+				return true
+			}
+			return false
+		}
+		var isSource func(v ssa.Value) bool
+		isSource = func(v ssa.Value) bool {
 			cl, ok := v.(*ssa.Call)
 			if !ok {
 				return false
 			}
 			n := callName(&cl.Call)
+			// the contents of a local buffer: whatever was written into it
+			if (n == "(*bytes.Buffer).Bytes" || n == "(*bytes.Buffer).String" || n == "(*strings.Builder).String") && len(cl.Call.Args) > 0 && isLocalBuf(cl.Call.Args[0]) {
+				buf := strip(cl.Call.Args[0])
+				for _, r := range referrers(buf) {
+					wc, isCall := r.(ssa.CallInstruction)
+					if !isCall || wc == ssa.CallInstruction(cl) {
+						continue
+					}
+					for i, a := range callArgs(wc.Common()) {
+						if strip(a) == buf && i == 0 {
+							continue
+						}
+						if derivesFrom(a, isSource, nil) {
+							return true
+						}
+					}
+				}
+				return false
+			}
 			if n == "builtin.recover" || strings.HasPrefix(n, "runtime.") || strings.HasPrefix(n, "runtime/debug.") {
 				return true
 			}
@@ -216,6 +248,9 @@ func checkC15(c *Check) {
 			case n == "(net/http.Header).Set" || n == "(net/http.Header).Add":
 				sinkArgs = ci.Common().Args[1:]
 			case n == "net/http.Error" || n == "io.WriteString" || strings.HasPrefix(n, "fmt.Fprint"):
+				if len(ci.Common().Args) > 0 && isLocalBuf(ci.Common().Args[0]) {
+					return // assembling text in a local buffer; its contents are a source where they are read
+				}
 				sinkArgs = ci.Common().Args[1:]
 			default:
 				return
